@@ -22,6 +22,7 @@ import (
 	"fmt"
 	"math/rand"
 	"os"
+	"strings"
 	"sync"
 	"sync/atomic"
 	"time"
@@ -42,6 +43,7 @@ var benchFlag = flag.String("bench", "fir", "workload")
 var modeFlag = flag.String("mode", "free", "free|lazy|eager|noise")
 var vseedFlag = flag.Int64("vseed", 1, "seed for noise mode")
 var sizeFlag = flag.Int("size", 0, "problem size (0 = default small)")
+var idSkipFlag = flag.Int64("idskip", 0, "draw this many ids from akita's process-wide id generator before the platform is built")
 
 // memcopy is the repository's determinism test program (amd/tests/deterministic/memcopy).
 type memcopy struct {
@@ -215,8 +217,55 @@ type hookFn func(ctx sim.HookCtx)
 
 func (f hookFn) Func(ctx sim.HookCtx) { f(ctx) }
 
+// wfTracer records the ids of the timing CUs' wavefront tasks (= Wavefront.UID, drawn from the process-wide id
+// generator when a work-group is mapped) in creation order.
+type wfTracer struct {
+	mu  sync.Mutex
+	ids []string
+}
+
+func (t *wfTracer) StartTask(task tracing.Task) {
+	if task.Kind != "wavefront" {
+		return
+	}
+	t.mu.Lock()
+	t.ids = append(t.ids, task.ID)
+	t.mu.Unlock()
+}
+func (t *wfTracer) StepTask(task tracing.Task)       {}
+func (t *wfTracer) AddMilestone(m tracing.Milestone) {}
+func (t *wfTracer) EndTask(task tracing.Task)        {}
+
+// cuHook attaches the wavefront tracer to every compute unit right before its first event (the runner keeps the
+// simulation to itself; an event's handler is the component). A pointer type: akita compares registered hooks.
+type cuHook struct {
+	seen map[string]bool
+	t    *wfTracer
+}
+
+func (h *cuHook) Func(ctx sim.HookCtx) {
+	if ctx.Pos != sim.HookPosBeforeEvent {
+		return
+	}
+	evt, ok := ctx.Item.(sim.Event)
+	if !ok {
+		return
+	}
+	c, ok := evt.Handler().(tracing.NamedHookable)
+	if !ok || h.seen[c.Name()] || !strings.Contains(c.Name(), ".CU[") {
+		return
+	}
+	h.seen[c.Name()] = true
+	tracing.CollectTrace(c, h.t)
+}
+
 func main() {
 	flag.Parse()
+	// results must not depend on where the process-wide id counter stands (earlier simulations in the process, host
+	// threads drawing ids): shift it
+	for i := int64(0); i < *idSkipFlag; i++ {
+		sim.GetIDGenerator().Generate()
+	}
 	rand.Seed(20260925) //nolint:staticcheck // the shipped workloads draw their inputs from the global source: same inputs every run
 	r := new(runner.Runner).Init()
 	b := makeBench(*benchFlag, r)
@@ -316,6 +365,11 @@ func main() {
 		panic("unknown mode")
 	}
 
+	// attach the wavefront tracer to every compute unit right before its first event (the runner keeps the simulation
+	// to itself; an event's handler is the component)
+	wft := &wfTracer{}
+	r.Engine().AcceptHook(&cuHook{seen: map[string]bool{}, t: wft})
+
 	r.Run()
 	driver.VerifYield = nil
 
@@ -344,6 +398,8 @@ func main() {
 		"buffer_digest": hex.EncodeToString(h.Sum(nil)),
 		"steered":       atomic.LoadInt64(&held),
 		"commands":      ct.cmds,
+		"wavefront_ids": wft.ids,
+		"idskip":        *idSkipFlag,
 		"cwd":           cwd,
 	}
 	js, _ := json.Marshal(out)
